@@ -379,8 +379,24 @@ func nilTestsOf(fn *ssa.Function, v ssa.Value) (out []struct {
 			continue
 		}
 		c := decodeCond(ifi.Cond)
-		if nil == c.Y || !isNilConst(c.Y) || c.X != v {
+		if nil == c.Y || !isNilConst(c.Y) {
 			continue
+		}
+		if c.X != v {
+			/* Or a load of the variable v was put into, which can hold
+			nothing else at that point. */
+			ld, isLd := c.X.(*ssa.UnOp)
+			if !isLd || token.MUL != ld.Op {
+				continue
+			}
+			cell, isCell := ld.X.(*ssa.Alloc)
+			if !isCell {
+				continue
+			}
+			sts := reachingStoresAt(ld, cell)
+			if 1 != len(sts) || sts[0].Val != v {
+				continue
+			}
 		}
 		ns := 1
 		if c.Eq {
